@@ -2788,7 +2788,9 @@ class TLSConnection(TLSRecordLayer):
             serverCertChain = None
         srpUsername = None
         serverName = None
-        if clientHello.srp_username:
+        # the user name is only proven when an SRP key exchange was done
+        if clientHello.srp_username and \
+                cipherSuite in CipherSuite.srpAllSuites:
             srpUsername = clientHello.srp_username.decode("utf-8")
         if clientHello.server_name:
             serverName = clientHello.server_name.decode("utf-8")
